@@ -25,11 +25,38 @@ struct S {
     registers_token_list: registers::Component<Vec<token::Token>, 256>,
     out: String,
     recovered: std::cell::Cell<u32>,
+    /// logical step budget: generated programs may loop (\def\a{\a}\a); they are cut off and
+    /// not counted, as in the native monitors
+    steps: std::cell::Cell<u32>,
+}
+
+struct Budget;
+const MAX_STEPS: u32 = 4000;
+
+impl S {
+    fn step(&self) {
+        let n = self.steps.get() + 1;
+        self.steps.set(n);
+        if n > MAX_STEPS {
+            self.steps.set(0);
+            std::panic::panic_any(Budget);
+        }
+    }
 }
 
 impl TexlangState for S {
     fn cat_code(&self, c: char) -> CatCode {
+        self.step();
         codes::cat_code(self, c)
+    }
+    fn post_macro_expansion_hook(
+        _token: token::Token,
+        input: &vm::ExpansionInput<Self>,
+        _tex_macro: &texlang::texmacro::Macro,
+        _arguments: &[&[token::Token]],
+        _reversed_expansion: &[token::Token],
+    ) {
+        input.state().step();
     }
     fn end_line_char(&self) -> Option<char> {
         endlinechar::end_line_char(self)
@@ -73,6 +100,7 @@ impl vm::Handlers<S> for H {
         _t: token::Token,
         c: char,
     ) -> texlang::prelude::Result<()> {
+        input.state().step();
         input.state_mut().out.push(c);
         Ok(())
     }
@@ -209,17 +237,31 @@ fn main() {
     let mut ok = 0;
     let mut err = 0;
     let mut mismatches = 0;
+    let mut budget = 0;
+    std::panic::set_hook(Box::new(|info| {
+        if info.payload().downcast_ref::<Budget>().is_none() {
+            eprintln!("panic: {info}");
+        }
+    }));
     for idx in first..first + count {
         let (program, expect) = gen(idx);
         let mut vm = vm::VM::<S>::new_with_built_in_commands(built_ins());
         vm.working_directory = Some("/vwork".into());
         vm.push_source("miri.tex", program.clone()).unwrap();
-        match vm.run::<H>() {
-            Ok(()) => ok += 1,
-            Err(e) => {
+        let r = std::panic::catch_unwind(std::panic::AssertUnwindSafe(|| vm.run::<H>()));
+        match r {
+            Ok(Ok(())) => ok += 1,
+            Ok(Err(e)) => {
                 // rendering goes through the tracer as well
                 let _ = format!("{e}");
                 err += 1
+            }
+            Err(payload) => {
+                if payload.downcast_ref::<Budget>().is_some() {
+                    budget += 1;
+                    continue;
+                }
+                std::panic::resume_unwind(payload);
             }
         }
         // the lexer's in-place write must leave the output valid UTF-8 (checked by String itself
@@ -232,5 +274,5 @@ fn main() {
             }
         }
     }
-    println!("VMIRI first={first} count={count} ok={ok} err={err} mismatches={mismatches}");
+    println!("VMIRI first={first} count={count} ok={ok} err={err} mismatches={mismatches} budget={budget}");
 }
